@@ -82,7 +82,7 @@ def strategy(tier):
 
 
 def n_random(tier):
-    return 24 if tier == "quick" else 4000
+    return 24 if tier == "quick" else 150
 
 
 def form_of(coll, form):
